@@ -1,5 +1,59 @@
-/- C14 property theorems (under construction) -/
-import Stgutg.Model.AperDec
+/-
+  C14 — NGAP decoding is total: error or value, never a crash or hang.
+  Model: Stgutg.Model.AperDec (aper.go parseField & helpers) over the schema regenerated from
+  src/free5gclib/ngap/ngapType/*.go (Stgutg.Gen.NgapSchema). Helper lemmas: Stgutg/Proofs/AperTotal.lean.
+-/
+import Stgutg.Proofs.AperTotal
 import Stgutg.Gen.NgapSchema
+
 namespace Stgutg.Props.C14
+open Stgutg Stgutg.Aper Stgutg.Proofs.AperTotal
+
+/-- fuel used by the driver and the theorems: above the nesting measure of every type of the schema;
+    it depends on the schema only, never on the input -/
+def fuel : Nat := 8 * (Gen.Ngap.schema.length + 1) + 1
+
+set_option maxRecDepth 1000000 in
+/-- Table fact, re-decided on every run over the regenerated schema (1 431 struct types): struct ids are
+    topologically ordered with nesting measure decreasing along fields, no size constraint fixes an empty
+    string (that would make `GetBitString(…, 0)` trap), and no open-type reference field reaches an empty struct. -/
+theorem schema_ok : envOK Gen.Ngap.schema = true := by decide +kernel
+
+set_option maxRecDepth 1000000 in
+theorem pdu_in_schema : Gen.Ngap.pduId < Gen.Ngap.schema.length := by decide +kernel
+
+theorem fuel_gt (id : Nat) (h : id < Gen.Ngap.schema.length) : tyDepth (.struct id) < fuel := by
+  show 8 * (id + 1) < 8 * (Gen.Ngap.schema.length + 1) + 1
+  omega
+
+theorem decoder_params_ok : sizeOK Gen.Ngap.decoderParams = true := by decide
+
+/-- **C14 (no crash, no hang)**: for EVERY byte string, `ngap.Decoder` (model) returns a PDU or an error:
+    it never panics and never runs out of the schema-determined fuel (so the recursion depth and the number
+    of loop iterations are bounded independently of the counts and lengths the input claims). -/
+theorem decoder_total (bs : Bytes) :
+    unmarshal Gen.Ngap.schema fuel (.struct Gen.Ngap.pduId) Gen.Ngap.decoderParams bs ≠ .error .panic ∧
+    unmarshal Gen.Ngap.schema fuel (.struct Gen.Ngap.pduId) Gen.Ngap.decoderParams bs ≠ .error .hang :=
+  unmarshal_good Gen.Ngap.schema schema_ok fuel _ _ (fuel_gt _ pdu_in_schema) decoder_params_ok bs
+
+/-- the same for every struct type of the schema used as a top-level type with any parameter string whose
+    size constraint is not the empty fixed size (the transfer containers are decoded with "valueExt") -/
+theorem unmarshal_total (id : Nat) (hid : id < Gen.Ngap.schema.length) (params : Params) (hp : sizeOK params = true)
+    (bs : Bytes) :
+    unmarshal Gen.Ngap.schema fuel (.struct id) params bs ≠ .error .panic ∧
+    unmarshal Gen.Ngap.schema fuel (.struct id) params bs ≠ .error .hang :=
+  unmarshal_good Gen.Ngap.schema schema_ok fuel _ _ (fuel_gt _ hid) hp bs
+
+/-- decoding never "un-reads": the reader only moves forward (basis of the loop bounds) -/
+theorem decoder_consumes (bs : Bytes) (v : Val) (r' : Rd)
+    (h : decField Gen.Ngap.schema fuel (.struct Gen.Ngap.pduId) Gen.Ngap.decoderParams (Rd.ofBytes bs) = .ok (v, r')) :
+    r'.len ≤ 8 * bs.length := by
+  have hd : tyDepth (.struct Gen.Ngap.pduId) < fuel := fuel_gt _ pdu_in_schema
+  exact (DOK_decField Gen.Ngap.schema schema_ok fuel _ _ hd decoder_params_ok (Rd.ofBytes bs)).2 v r' h
+
+/-- non-vacuity: a concrete 7-octet input (NGSetupResponse with an empty IE list) is decoded to a value -/
+example : (match unmarshal Gen.Ngap.schema 400 (.struct Gen.Ngap.pduId) Gen.Ngap.decoderParams
+    [0x20, 0x15, 0x00, 0x03, 0x00, 0x00, 0x00] with | .ok _ => true | .error _ => false) = true := by
+  decide +kernel
+
 end Stgutg.Props.C14
